@@ -182,11 +182,19 @@ func AcceptSites(p *core.Prog, d Driver) []AcceptSite {
 					}
 					// checks extracted into helpers of the driver's package are opened: one virtual path per
 					// success path of the helper, with the helper's conditions lifted into the matcher's vocabulary
-					for _, variant := range expandHelperAtoms(p, d, atoms, 0) {
+					for _, av := range expandHelperAtoms(p, d, atoms, 0) {
+						variant := av.resolved()
 						if !core.Feasible(variant) {
 							continue
 						}
-						site.Paths = append(site.Paths, PathInfo{Path: pa, Env: env, Atoms: variant, Fields: fields})
+						vfields := fields
+						if len(av.Subs) > 0 {
+							vfields = map[string]*core.Term{}
+							for k, v := range fields {
+								vfields[k] = applySubs(v, av.Subs)
+							}
+						}
+						site.Paths = append(site.Paths, PathInfo{Path: pa, Env: env, Atoms: variant, Fields: vfields})
 						if len(site.Paths) > 4000 {
 							break
 						}
@@ -257,19 +265,26 @@ func composeThroughCallers(p *core.Prog, d Driver, site AcceptSite) AcceptSite {
 				if !core.Feasible(atoms) {
 					continue
 				}
-				for _, inner := range site.Paths {
-					variant := append([]core.Atom{}, atoms...)
-					for _, a := range inner.Atoms {
-						variant = append(variant, core.Atom{Cond: liftWithEnv(env, a.Cond, cs), Sign: a.Sign, Block: cs.Block()})
-					}
-					if !core.Feasible(variant) {
+				// the caller's own checks may sit in predicate helpers as well
+				for _, cav := range expandHelperAtoms(p, d, atoms, 0) {
+					catoms := cav.resolved()
+					if !core.Feasible(catoms) {
 						continue
 					}
-					fields := map[string]*core.Term{}
-					for k, v := range inner.Fields {
-						fields[k] = liftWithEnv(env, v, cs)
+					for _, inner := range site.Paths {
+						variant := append([]core.Atom{}, catoms...)
+						for _, a := range inner.Atoms {
+							variant = append(variant, core.Atom{Cond: applySubs(liftWithEnv(env, a.Cond, cs), cav.Subs), Sign: a.Sign, Block: cs.Block()})
+						}
+						if !core.Feasible(variant) {
+							continue
+						}
+						fields := map[string]*core.Term{}
+						for k, v := range inner.Fields {
+							fields[k] = applySubs(liftWithEnv(env, v, cs), cav.Subs)
+						}
+						composed = append(composed, PathInfo{Path: pa, Env: env, Atoms: variant, Fields: fields})
 					}
-					composed = append(composed, PathInfo{Path: pa, Env: env, Atoms: variant, Fields: fields})
 				}
 			}
 		}
@@ -282,11 +297,53 @@ func composeThroughCallers(p *core.Prog, d Driver, site AcceptSite) AcceptSite {
 	return site
 }
 
+// valueSub: result #idx of the call at site is, on the chosen success path of the callee, the term repl (caller's vocabulary).
+type valueSub struct {
+	site *ssa.Call
+	idx  string
+	repl *core.Term
+}
+
+// atomVariant is one virtual path after opening helpers: its conditions and the values the opened helpers return on it.
+type atomVariant struct {
+	Atoms []core.Atom
+	Subs  []valueSub
+}
+
+func applySubs(t *core.Term, subs []valueSub) *core.Term {
+	if len(subs) == 0 || t == nil {
+		return t
+	}
+	return t.Subst(func(x *core.Term) *core.Term {
+		if x.Op == "extract" && len(x.Args) == 1 && x.Args[0].Op == "call" {
+			for _, sb := range subs {
+				if x.Name == sb.idx && x.Args[0].Val == ssa.Value(sb.site) {
+					return sb.repl
+				}
+			}
+		}
+		return nil
+	})
+}
+
+func (v atomVariant) resolved() []core.Atom {
+	if len(v.Subs) == 0 {
+		return v.Atoms
+	}
+	out := make([]core.Atom, len(v.Atoms))
+	for i, a := range v.Atoms {
+		out[i] = core.Atom{Cond: applySubs(a.Cond, v.Subs), Sign: a.Sign, Block: a.Block}
+	}
+	return out
+}
+
 // expandHelperAtoms replaces every accepting atom that is a call of a boolean (or error-returning) helper defined in the
-// driver's own package by the conditions of each of the helper's success paths.
-func expandHelperAtoms(p *core.Prog, d Driver, atoms []core.Atom, depth int) [][]core.Atom {
+// driver's own package by the conditions of each of the helper's success paths. A method of the driver that returns
+// (value, error) – a switch arm extracted into a method – is opened too: its success conditions are imported and its value
+// result is replaced by what that path returns; plain value-producing functions and the sent-probe accessors stay opaque.
+func expandHelperAtoms(p *core.Prog, d Driver, atoms []core.Atom, depth int) []atomVariant {
 	if depth > 2 {
-		return [][]core.Atom{atoms}
+		return []atomVariant{{Atoms: atoms}}
 	}
 	for i, a := range atoms {
 		n := a.Norm()
@@ -318,6 +375,7 @@ func expandHelperAtoms(p *core.Prog, d Driver, atoms []core.Atom, depth int) [][
 			continue
 		}
 		res := f.Signature.Results()
+		valueIdx := -1
 		if errIdx < 0 {
 			if res.Len() != 1 {
 				continue
@@ -325,19 +383,24 @@ func expandHelperAtoms(p *core.Prog, d Driver, atoms []core.Atom, depth int) [][
 			if b, ok := res.At(0).Type().Underlying().(*types.Basic); !ok || b.Kind() != types.Bool {
 				continue
 			}
-		} else if res.Len() != 1 || errIdx != 0 || !isErrorType(res.At(0).Type()) {
+		} else if res.Len() == 1 && errIdx == 0 && isErrorType(res.At(0).Type()) {
+			// error-only helper
+		} else if res.Len() == 2 && errIdx == 1 && isErrorType(res.At(1).Type()) && f.Signature.Recv() != nil && types.Identical(f.Signature.Recv().Type(), types.NewPointer(d.Named)) && !isAccessorName(f.Name()) {
+			valueIdx = 0
+		} else {
 			continue // value-producing functions stay opaque: their results are keys / fields of the reply
 		}
 		rps, complete := core.ReturnPaths(p, f, 500)
 		if !complete {
 			continue
 		}
-		var out [][]core.Atom
+		var out []atomVariant
 		for _, rp := range rps {
 			if rp.Ret.Block().Comment == "recover" {
 				continue
 			}
 			var extra []core.Atom
+			var subs []valueSub
 			if errIdx < 0 {
 				r := rp.Results[0]
 				if r.IsConst("false") {
@@ -349,20 +412,25 @@ func expandHelperAtoms(p *core.Prog, d Driver, atoms []core.Atom, depth int) [][
 			} else if !rp.Results[errIdx].IsConst("nil") {
 				continue
 			}
+			if valueIdx >= 0 {
+				subs = append(subs, valueSub{site, fmt.Sprint(valueIdx), liftThrough(p, rp.Results[valueIdx], site)})
+			}
 			variant := append([]core.Atom{}, atoms[:i]...)
 			for _, ca := range rp.Atoms {
 				variant = append(variant, core.Atom{Cond: liftThrough(p, ca.Cond, site), Sign: ca.Sign, Block: a.Block})
 			}
 			variant = append(variant, extra...)
 			variant = append(variant, atoms[i+1:]...)
-			out = append(out, expandHelperAtoms(p, d, variant, depth+1)...)
+			for _, sub := range expandHelperAtoms(p, d, variant, depth+1) {
+				out = append(out, atomVariant{Atoms: sub.Atoms, Subs: append(append([]valueSub{}, subs...), sub.Subs...)})
+			}
 		}
 		if len(out) == 0 {
-			return [][]core.Atom{atoms}
+			return []atomVariant{{Atoms: atoms}}
 		}
 		return out
 	}
-	return [][]core.Atom{atoms}
+	return []atomVariant{{Atoms: atoms}}
 }
 
 func isAccessorName(n string) bool {
